@@ -50,14 +50,14 @@ func (s *spy) snapshot() []spyRec {
 
 type adapter struct {
 	kind      string
-	spy       *spy                     // nil for kinds without a transformation function of ours
-	norm      func(int) int            // canonical form of a requested value
-	transform func(cur, req int) int   // model of the transformation function
-	set       func(int)                // Set
-	compute   func(k int)              // Compute(cur -> cur+k)
-	defaultTo func(d int)              // DefaultTo
-	get       func() int               // Get
-	trigger   func() bool              // Event.Trigger (nil otherwise)
+	spy       *spy                   // nil for kinds without a transformation function of ours
+	norm      func(int) int          // canonical form of a requested value
+	transform func(cur, req int) int // model of the transformation function
+	set       func(int)              // Set
+	compute   func(k int)            // Compute(cur -> cur+k)
+	defaultTo func(d int)            // DefaultTo
+	get       func() int             // Get
+	trigger   func() bool            // Event.Trigger (nil otherwise)
 	onUpdate  func(cb func(p, n int), flag bool) func()
 	onOnce    func(cb func(p, n int), cond func(p, n int) bool) func()
 	onTrigger func(cb func()) func() // Event.OnTrigger (nil otherwise)
